@@ -44,16 +44,18 @@ thread_local! {
 /// tree-sitter's verdict on `src` (which already ends in the full-match suffix)
 fn query_verdict(src: &str) -> QV {
     if let Some(v) = QCACHE.with(|c| c.borrow().get(src).cloned()) { return v; }
-    let v = match Query::new(&lang(), src) {
+    // tree-sitter 0.24.7 panics while BUILDING the QueryError for an unknown name at offset 0 of the source (it reads the
+    // byte before the offset): the oracle asks behind a newline and takes it off the reported position again
+    let v = match Query::new(&lang(), &format!("\n{}", src)) {
         Ok(q) => QV::Ok(q.pattern_count(), q.capture_index_for_name(&FULL[1..])),
-        Err(e) => QV::Err(e.row, e.column, e.offset),
+        Err(e) => QV::Err(e.row.saturating_sub(1), e.column, e.offset.saturating_sub(1)),
     };
     QCACHE.with(|c| c.borrow_mut().insert(src.to_string(), v.clone()));
     v
 }
 fn merged_ok(src: &str) -> bool {
     if let Some(v) = MCACHE.with(|c| c.borrow().get(src).cloned()) { return v; }
-    let v = Query::new(&lang(), src).is_ok();
+    let v = Query::new(&lang(), &format!("\n{}", src)).is_ok();
     MCACHE.with(|c| c.borrow_mut().insert(src.to_string(), v));
     v
 }
@@ -1257,7 +1259,7 @@ const NEAR: &[(&str, &[&str])] = &[("let", &["lett", "le", "Let"]), ("var", &["v
     ("in", &["i", "inside", "of"]), ("some", &["somex", "som", "Some"]), ("none", &["nonex", "non", "null"]),
     ("global", &["globalx", "globa", "globals"]), ("attribute", &["attribut", "attributex", "attr"]), ("inherit", &["inheri", "inheritx", "inherits"])];
 const QUERIES_2PAT: &[&str] = &["(identifier) @a (call) @b", "(module) @m\n(identifier) @i\n", "(identifier) (identifier) @x", "(pass_statement) @p ; c\n (call) @c"];
-const QUERIES_BAD: &[&str] = &["(nonexistent) @x", "(identifier", "(identifier)) @x", "identifier", "(identifier) @", "\"unterminated", "(identifier) (#eq? @x)",
+const QUERIES_BAD: &[&str] = &["nofield: (identifier) @x", "zz: _", "(nonexistent) @x", "(identifier", "(identifier)) @x", "identifier", "(identifier) @", "\"unterminated", "(identifier) (#eq? @x)",
     "", "(identifier) @id ; comment without newline", "(call function: (nope) @f) @c", "(call nofield: (identifier) @f) @c", "\n\n  (module) @m (#bad) ",
     "((identifier) @id (#eq? @id \"x))", "(é) @x", "@x", "(identifier) @é", "(module) \"{\" @x", "[(integer) (string) @lit", "(identifier)\u{a0}@id"];
 const BAD_REGEX: &[&str] = &["\"(\"", "\"[\"", "\"*\"", "\"(?P<\"", "\"a{2,1}\"", "\"\\\\\"", "\"é(\""];
@@ -1271,6 +1273,10 @@ fn specials() -> Vec<(String, String)> {
     for t in ["(module) @m {\r\n  node @\r\n}\r\n", "inherit .\r\n(module) @m { }\r\n", "(module) @m {\r\n  attr (n) a = #\r\n}\r\n", "(module) @m {\r\n  let x = $\r\n}\r\n",
               "global\r\n", "(module) @m {\r\n  edge a ->\r\n}\r\n", "(module) @m {\r\n  print \"abc\r\n}\r\n", "attribute a = x =>\r\n", "(module) @m {\r\n  scan x {\r\n    \"(\" {\r\n    }\r\n  }\r\n}\r\n",
               "(module) @m {\r\n  node n\r\n  attr (n) k = @\r", "(module) @\r\n{ }"] { add("crlf-dangling", t.to_string()); }
+    // a stanza whose query STARTS with a name tree-sitter reports an error about (unknown field / capture at offset 0 of the
+    // query source handed to Query::new): the error is built from the byte BEFORE the offset
+    for t in ["x: (_) { }", "  x: (_) { }", "(module) { }\n\n  nae: (identifier) { }", "x:(_){}", "\u{e9}: (_) { }", "nofield: (identifier) @x {\n  node n\n}\n", "name: (identifier) @n { }",
+              "; c\nzz: (module) @m { }", "global g\nfld: _ @x { print g }"] { add("query-start", t.to_string()); }
     for t in [" \n\t\r\n", "\u{a0}\u{2028} ", "\n", "\u{b}\u{c}"] { add("ws-only", t.to_string()); }
     for t in ["; c", "; c\n", ";\n;;\n ; é {", ";", ";\n", "; (module) @m { }", " ; a\r; b\n"] { add("comment-only", t.to_string()); }
     for sfx in ["", " ", "\n", "\t", "\r", ";", "; c\n", "?", "*", "+", "??", "=", "= \"d\"", "(", "\"", "\u{a0}", "\u{2028}", "é", "\0", "0", "-", "_", "?=\"d\"",
@@ -1389,7 +1395,7 @@ pub fn malformed_texts(rng: &mut Rng, n: usize) -> Vec<(String, Vec<String>, &'s
     let queries = query_pool();
     let mut out = Vec::with_capacity(n);
     // hand-written edge cases: a random subset (at most 2/5 of the stream), all of them in thorough runs
-    let (core, mut sp): (Vec<_>, Vec<_>) = specials().into_iter().partition(|(k, _)| k == "empty" || k == "ws-only" || k == "comment-only");
+    let (core, mut sp): (Vec<_>, Vec<_>) = specials().into_iter().partition(|(k, _)| k == "empty" || k == "ws-only" || k == "comment-only" || k == "query-start");
     for i in (1..sp.len()).rev() { let j = rng.below(i + 1); sp.swap(i, j); }
     let mut sp: Vec<(String, String)> = core.into_iter().chain(sp).collect();   // empty / blank / comment-only inputs are in every run
     sp.truncate(n * 2 / 5);
